@@ -195,9 +195,11 @@ def mk_detector(I, st, kind, name='det'):
     d.partial = True
     if kind == 'flat1d':
         d.fields['_Flat1dDetector__axis'] = vec(st, name + '_ax', 2, unit=True)
+        d.axis_given = d.fields['_Flat1dDetector__axis']
     elif kind == 'flat2d':
         a, b = vec(st, name + '_axa', 3, unit=True), vec(st, name + '_axb', 3, unit=True)
         d.fields['_Flat2dDetector__axes'] = ONd(np.array([a.a, b.a], dtype=object))
+        d.axis_given = d.fields['_Flat2dDetector__axes']
         # linearly independent axes: the cross product does not vanish
         cr = np.cross(a.a, b.a)
         st.assume(cr[0] * cr[0] + cr[1] * cr[1] + cr[2] * cr[2] > 0)
@@ -208,10 +210,72 @@ def mk_detector(I, st, kind, name='det'):
         sin_, cos_ = ax.a[0], -ax.a[1]
         rot = np.array([[cos_, -sin_], [sin_, cos_]], dtype=object)
         d.fields['_CircularDetector__axis'] = ax
+        d.axis_given, d.radius_given = ax, r
         d.fields['_CircularDetector__radius'] = r
         d.fields['_CircularDetector__rotation_matrix'] = ONd(rot)
         d.fields['_CircularDetector__translation'] = ONd(-r * rot.dot(np.array([1.0, 0.0], dtype=object)))
     return d
+
+
+def construct_detector(I, st, kind, name='det', fr=None):
+    """the detector, built through its REAL constructor (object-array mode) from a symbolic unit axis / axes and radius"""
+    cls = {'flat1d': 'Flat1dDetector', 'flat2d': 'Flat2dDetector', 'circular': 'CircularDetector'}[kind]
+    nd = 2 if kind == 'flat2d' else 1
+    part = mk_partition(I, nd)
+    fr = fr or ip.Frame(st)
+    if kind == 'flat1d':
+        ax = vec(st, name + '_ax', 2, unit=True)
+        d = I.call(I.get_class(DET + cls), [part, ax], {'check_bounds': False}, fr)
+        d.axis_given = ax
+    elif kind == 'flat2d':
+        a, b = vec(st, name + '_axa', 3, unit=True), vec(st, name + '_axb', 3, unit=True)
+        cr = np.cross(a.a, b.a)
+        st.assume(cr[0] * cr[0] + cr[1] * cr[1] + cr[2] * cr[2] > 0)          # linearly independent axes
+        nrm = objnp.norm(I, fr, ONd(np.cross(objnp.to_obj(np.array([a.a, b.a], dtype=object))[0], objnp.to_obj(np.array([a.a, b.a], dtype=object))[1])))
+        st.assume(core.S.lift(nrm) > 0)                                        # ... in the form the constructor tests (same sqrt term)
+        d = I.call(I.get_class(DET + cls), [part, [a, b]], {'check_bounds': False}, fr)
+        d.axis_given = ONd(np.array([a.a, b.a], dtype=object))
+    else:
+        ax = vec(st, name + '_ax', 2, unit=True)
+        r = sym(name + '_radius')
+        st.assume(r > 0)
+        d = I.call(I.get_class(DET + cls), [part, ax, r], {'check_bounds': False}, fr)
+        d.axis_given, d.radius_given = ax, r
+    return d
+
+
+def unit_detector_ctor(kind):
+    """the REAL constructor, given a unit axis / independent unit axes and a positive radius, establishes exactly the fields the field-wise
+    builder `mk_detector` assumes in the det/* and geom/* units (assume-guarantee); det/* proves from those fields that the detector is
+    aligned with the given axis at parameter 0"""
+    def run(ctx):
+        I = ctx.I
+
+        def path(st):
+            install_geo(st)
+            fr = ip.Frame(st)
+            try:
+                real = construct_detector(I, st, kind, 'det', fr)
+            except ip.PyRaise as e:
+                return ('raise', e.exc)
+            return ('ok', real)
+        info = {'detector': kind}
+        fields = {'flat1d': ['_Flat1dDetector__axis'], 'flat2d': ['_Flat2dDetector__axes'],
+                  'circular': ['_CircularDetector__axis', '_CircularDetector__radius', '_CircularDetector__rotation_matrix', '_CircularDetector__translation']}[kind]
+        n_ok = 0
+        for st, (status, real) in ctx.explore(path):
+            if status == 'raise':
+                ctx.fail(st, 'constructor accepts a unit axis', 'raises %s' % lib.exc_desc(real), info)
+                continue
+            n_ok += 1
+            model = mk_detector(I, st, kind)           # same symbol names: the builder's fields as functions of (axis, radius)
+            for f in fields:
+                ctx.prove(st, 'constructor establishes %s as assumed by the field-wise builder' % f.split('__')[-1], eq_all(arr(real.fields[f]) if isinstance(real.fields[f], ONd) else np.array([real.fields[f]], dtype=object),
+                                                                                                                 arr(model.fields[f]) if isinstance(model.fields[f], ONd) else np.array([model.fields[f]], dtype=object)), info)
+            ctx.prove(st, 'constructor stores space_ndim and check_bounds', real.fields.get('_Detector__space_ndim') == model.fields['_Detector__space_ndim'] and real.fields.get('_Detector__check_bounds') is False, info)
+        if n_ok == 0:
+            ctx.unsupported('unit', 'no constructor path completes (vacuous)')
+    return Unit('ctor/%s' % kind, run, funcs=[DET + '*Detector.__init__'], config={'detector': kind})
 
 
 def perpendicular_vector_contract(I, fr, vec_):
@@ -306,6 +370,15 @@ def unit_detector(kind, shape_name):
                     continue
                 for i in r['idxs']:
                     ctx.prove(st, '%s: vectorised entry %r == single-parameter evaluation' % (nm, i), eq_all(full[i] if shape else full, r[nm + '1'][i]), info)
+            if shape_name == 'scalar':
+                zero = 0.0 if kind != 'flat2d' else (0.0, 0.0)
+                I_, fr_ = ctx.I, r['fr']
+                s0 = arr(I_.call(I_._getattr(d, 'surface', fr_), [zero], {}, fr_))
+                d0 = arr(I_.call(I_._getattr(d, 'surface_deriv', fr_), [zero], {}, fr_))
+                given = arr(d.axis_given)
+                ctx.prove(st, 'surface(0) is the reference point (origin of the detector frame)', eq_all(s0, np.zeros(sdim, dtype=object)), info)
+                scale = getattr(d, 'radius_given', 1.0)
+                ctx.prove(st, 'the detector is aligned with the given axis at parameter 0  (surface_deriv(0) == [radius *] axis)', eq_all(d0, scale * given), info)
             for i in r['idxs']:
                 surf, der, nrm, meas = [arr(r[nm + '1'][i]) for nm in ('surface', 'surface_deriv', 'surface_normal', 'surface_measure')]
                 ders = der if kind == 'flat2d' else der[None]
@@ -552,7 +625,10 @@ def unit_geometry(kind, mshape_name, dshape_name):
             install_geo(st)
             fr = ip.Frame(st)
             ms, ds = PSHAPES[mshape_name], PSHAPES[dshape_name]
-            g = mk_geometry(I, st, kind)
+            try:
+                g = mk_geometry(I, st, kind)
+            except ip.PyRaise as e:
+                return ('raise', e.exc)
             a, aidx = param('ang', ms, G['mk'])
             u, uidx = param('u', ds, G['dk'])
             out = dict(fr=fr, g=g, a=a, u=u, aidx=aidx, uidx=uidx)
@@ -993,6 +1069,7 @@ def units(tier, seed):
         for sh in SHAPES:
             us.append(unit_rot(kind, sh))
     for kind in ('flat1d', 'flat2d', 'circular'):
+        us.append(unit_detector_ctor(kind))
         for sh in ('scalar', 'vec2'):
             us.append(unit_detector(kind, sh))
     for kind in GEOS:
